@@ -455,18 +455,18 @@ func c19key(slot int64) string {
 // ---------------------------------------------------------------- case runners
 
 type c19case struct {
-	Kind   string    `json:"kind"`
-	Topo   *c19topo  `json:"topo,omitempty"`
-	Ver    int       `json:"ver,omitempty"`
-	Reps   int       `json:"reps,omitempty"`
-	Mut    int       `json:"mut,omitempty"`
-	Order  int       `json:"order,omitempty"`
-	Client bool      `json:"client,omitempty"`
-	Script []c19rep  `json:"script,omitempty"`
-	Max    int       `json:"max,omitempty"`
-	API    string    `json:"api,omitempty"`
-	Tree   *c19m     `json:"tree,omitempty"` // informational (malformed cases)
-	MutOp  string    `json:"mut_op,omitempty"`
+	Kind   string   `json:"kind"`
+	Topo   *c19topo `json:"topo,omitempty"`
+	Ver    int      `json:"ver,omitempty"`
+	Reps   int      `json:"reps,omitempty"`
+	Mut    int      `json:"mut,omitempty"`
+	Order  int      `json:"order,omitempty"`
+	Client bool     `json:"client,omitempty"`
+	Script []c19rep `json:"script,omitempty"`
+	Max    int      `json:"max,omitempty"`
+	API    string   `json:"api,omitempty"`
+	Tree   *c19m    `json:"tree,omitempty"` // informational (malformed cases)
+	MutOp  string   `json:"mut_op,omitempty"`
 }
 
 func c19runParse(r *vrun.Run, t *c19topo) bool {
@@ -994,11 +994,11 @@ func c19layouts(maxK int, bothMerge bool) (out []c19topo) {
 var c19eps = []string{"", "?", c19nullEP, "172.16.0.9", "redis-x.example.com", "fd00::1"}
 
 type c19dims struct {
-	reps    []int
-	vers    []int
-	nodes   func(k, reps int) [][2]int // (shard, node) perturbation targets
-	tls     [][2]int                   // (client tls 0/1, tls-port mode)
-	fmts    []int
+	reps  []int
+	vers  []int
+	nodes func(k, reps int) [][2]int // (shard, node) perturbation targets
+	tls   [][2]int                   // (client tls 0/1, tls-port mode)
+	fmts  []int
 }
 
 func c19enum(layouts []c19topo, d c19dims, fn func(t *c19topo) bool) {
